@@ -103,5 +103,8 @@ func (u *uniqueID) sample() [24]byte {
 	u.counter = u.counter.Add(u.counter, common.Big1)
 	var id [24]byte
 	copy(id[:], u.counter.Bytes())
+	// the counter bytes are left-aligned and of variable length, so the counters 1 and 256
+	// (01 and 01 00) would produce the same ID: store the length too to keep the IDs unique
+	id[len(id)-1] = byte(len(u.counter.Bytes()))
 	return id
 }
